@@ -38,6 +38,8 @@ type cliCase struct {
 	Stdout  string    `json:"stdout"` // pipe | closed | full
 	Pre     []FSEntry `json:"pre,omitempty"`
 	Expect  string    `json:"expect_stage,omitempty"` // usage | opts | open ; empty: decided by the library
+	FileAt  string    `json:"file_at,omitempty"`      // where (relative to the jail) the document is written; the --file argument is part of Args
+	Decoy   string    `json:"decoy_at,omitempty"`     // another document, at the place a lexical clean of the --file argument would name
 }
 
 var cliBin string
@@ -117,7 +119,12 @@ func runCli(m *Model, bin string, c cliCase) []Diff {
 	args := []string{c.Sub}
 	args = append(args, c.Args...)
 	var stdin []byte
-	if c.ViaFile {
+	if c.FileAt != "" {
+		os.WriteFile(filepath.Join(jail, c.FileAt), doc, 0o644)
+		if c.Decoy != "" {
+			os.WriteFile(filepath.Join(jail, c.Decoy), []byte("- decoy\n  - wrong\n    - file\n"), 0o644)
+		}
+	} else if c.ViaFile {
 		p := filepath.Join(jail, "in.md")
 		os.WriteFile(p, doc, 0o644)
 		args = append(args, "--file", p)
@@ -128,6 +135,12 @@ func runCli(m *Model, bin string, c cliCase) []Diff {
 	twin := newJail()
 	defer os.RemoveAll(twin)
 	populate(twin, c.Pre)
+	if c.FileAt != "" {
+		os.WriteFile(filepath.Join(twin, c.FileAt), doc, 0o644)
+		if c.Decoy != "" {
+			os.WriteFile(filepath.Join(twin, c.Decoy), []byte("- decoy\n  - wrong\n    - file\n"), 0o644)
+		}
+	}
 	var opts []gtree.Option
 	dry, strict := false, false
 	target := ""
@@ -319,6 +332,12 @@ func runC16(ctx *Ctx) *Report {
 		cliCase{Kind: "cli", Sub: "template", Args: []string{"stray"}, Doc: "-", Stdout: "pipe", Expect: "usage"},
 		cliCase{Kind: "cli", Sub: "mkdir", Args: []string{"--massive"}, Doc: d0, Stdout: "pipe", Expect: "usage"},
 	)
+	// --file names the file as the OS resolves it: through a symbolic link to a directory and back up is another
+	// file than the lexically cleaned path
+	for _, sa := range [][]string{{"output"}, {"output", "--format", "json"}, {"mkdir", "--target-dir", "t"}, {"mkdir", "--dry-run"}, {"verify", "--target-dir", "t"}} {
+		pre := []FSEntry{{"real/sub/x", "d"}, {"link", "l:real/sub"}, {"real/doc.md", "f0"}, {"doc.md", "f0"}}
+		cases = append(cases, cliCase{Kind: "cli", Sub: sa[0], Args: append(append([]string{}, sa[1:]...), "--file", "link/../doc.md"), Doc: hxs("- inner\n  - a\n"), Stdout: "pipe", Pre: pre, FileAt: "real/doc.md", Decoy: "doc.md"})
+	}
 	// input that cannot be read, or has a row no scanner accepts, right at its start: a failure, not an empty success
 	long := hxs("- " + strings.Repeat("x", 70000) + "\n- a\n")
 	blankThenLong := hxs("\n  \n- " + strings.Repeat("y", 66000) + "\n")
